@@ -22,12 +22,16 @@ def _cleanup(path):
     shutil.rmtree(path, ignore_errors=True)
 
 
-def tree_root(target):
-    """the real directory standing for the root of Tree(target), built once per process"""
+def tree_root(target, base=None):
+    """the real directory standing for the root of Tree(target), built once per process (below `base`, which the caller removes)"""
     key = (os.getpid(), tuple(target))
     if key not in _ROOTS:
-        top = tlc.mktmp('paths-')
-        atexit.register(_cleanup, top)
+        if base:
+            top = os.path.join(base, f'p{os.getpid()}_{len(_ROOTS)}')
+            os.makedirs(top)
+        else:
+            top = tlc.mktmp('paths-')
+            atexit.register(_cleanup, top)
         root = os.path.join(top, 'r0', 'r1', 'r2', 'r3', 'root')
         os.makedirs(os.path.join(root, 'a', 'b'))
         os.makedirs(os.path.join(root, 'c'))
@@ -52,7 +56,15 @@ class PathResolution(core.Family):
     exhaustive = True
     procs = 8
 
+    top = None
+
+    def cleanup(self):
+        if self.top:
+            shutil.rmtree(self.top, ignore_errors=True)
+
     def inputs(self, ctx):
+        if self.top is None:
+            self.top = tlc.mktmp('paths-')          # worker processes build their trees below it; removed by cleanup()
         full = 4 if ctx.tier == 'thorough' else 3
         self.rule = (f'the tree of spec/PathTree.tla with the link /c/l absent or pointing to a/b, a, c, itself, a/../a/b (6 file systems) x every path of up to {full} components over '
                      '{a, b, c, x, l, "..", ".", ""}' + ('' if full == 4 else ' plus every 4-component path holding both l and ".."') +
@@ -69,7 +81,7 @@ class PathResolution(core.Family):
 
     def execute(self, inp):
         from gambit.cli.common import get_sequence_files
-        root = tree_root(inp['target'])
+        root = tree_root(inp['target'], self.top)
         text = '/'.join(inp['entry'])
         r = dict(target=inp['target'], dir=inp['dir'], entry=inp['entry'], channel=inp['channel'], got=0, label=[], err='')
         try:
